@@ -269,3 +269,16 @@ def run_scope(rep, tier, us, exclude=(), only=None, budget_quick=45, extra_rules
             for r in extra_rules:
                 r(rep, fn)
     return nfn, total
+
+
+def selftest_cursor():
+    from props import fixtures
+    u = fixtures.load("cursor.c")
+    rep = driver.Report("fixture", "quick")
+    names = [f.name for f in u.function_list if f.name.startswith("fx_")]
+    report(rep, u, names, run_functions(u, names))
+    for f in u.function_list:
+        if f.name.startswith("fx_"):
+            short_circuit_rule(rep, f)
+    fixtures.expect(rep, ["fx_scan_bad_order", "fx_scan_bad_le", "fx_copy_bad_term", "fx_idx_bad", "fx_peek_bad"],
+                    ["fx_scan_ok", "fx_copy_ok", "fx_copy_ok_term", "fx_idx_ok", "fx_peek_ok", "fx_loop_ok", "fx_tab_ok"], "R-CURSOR")
